@@ -76,7 +76,7 @@ def program_streams(ctx, micro_prefixes=None, want_random=True):
         micro = [(n, t) for n, t in micro if n.startswith(tuple(micro_prefixes))]
     off = rng.randrange(0, sz["micro_step"])
     for k, (name, text) in enumerate(micro):
-        if k % sz["micro_step"] == off % sz["micro_step"]:
+        if k % sz["micro_step"] == off % sz["micro_step"] or name.startswith("addrmix"):   # small directed families run in full
             progs.append(("micro:" + name, text, {"stream": "micro"}))
     if want_random:
         for k in range(sz["random"]):
@@ -840,6 +840,13 @@ def c16_extra(ctx):
         if y.get("str") != st or y.get("cls") != i1[f"l{k}"].get("cls"):
             ctx["violations"].append((f"printed form `{st}` of `{ls[k][0].strip()}` parses back to {y.get('cls')} `{y.get('str')}` {y.get('err', '')}",
                                       {"kind": "print-parse-roundtrip", "line": ls[k][0], "printed": st, "version": ver}))
+            break
+        # the printed form must denote the SAME instruction as the source line: same stack effect, version, mode and cost
+        x = i1[f"l{k}"]
+        diff = [f for f in ("pop", "push", "version", "mode", "cost") if x.get(f) != y.get(f)]
+        if diff:
+            ctx["violations"].append((f"`{ls[k][0].strip()}` prints as `{st}`, which parses back to a different instruction: " + ", ".join(f"{f} {x.get(f)} -> {y.get(f)}" for f in diff),
+                                      {"kind": "print-parse-identity", "line": ls[k][0], "printed": st, "version": ver}))
             break
     # (c) denotation of byte constants: decoded with Python's base64 module, independently of tealer and of the model
     import base64
